@@ -164,8 +164,8 @@ func newCodec(kr *keyring) *codec {
 
 func memberTok(id primitives.MemberId) uint64 {
 	s := string(id)
-	if len(s) == 6 && s[0] == 'm' {
-		if n, err := strconv.ParseUint(s[1:], 10, 64); err == nil {
+	if len(s) == len(idPrefix)+5 && strings.HasPrefix(s, idPrefix) {
+		if n, err := strconv.ParseUint(s[len(idPrefix):], 10, 64); err == nil {
 			return n
 		}
 	}
